@@ -264,7 +264,7 @@ def resolve (s : State) (self : Option ObjId) : Who → Ref
     match self with
     | none => .null
     | some o => if s.alive o then .live o else .null
-  | .obj k => if k = 0 ∨ s.nextObj ≤ k then .nil else if s.alive k then .live k else .null
+  | .obj k => if s.nextObj ≤ k then .nil else if s.alive k then .live k else .null
 
 /-- simple statements (usable at top level and inside a handler thread) -/
 inductive Act
